@@ -3,6 +3,7 @@ package mycheck
 import (
 	"errors"
 	"fmt"
+	"strings"
 
 	"verif/sess"
 )
@@ -70,7 +71,7 @@ func (c *Client) step(payload []byte) (*Result, error) {
 		return out, err
 	}
 	if p := c.S.PanicList(); len(p) > 0 {
-		out.Failure, out.Detail = "panic", fmt.Sprint(p)
+		out.Failure, out.Detail = "panic", fmt.Sprint(p)+" at "+panicSite(c.S)
 		return out, nil
 	}
 	if res.Terminated {
@@ -161,4 +162,60 @@ func (r *Result) HarnessErr() string {
 		return r.Seen.Err
 	}
 	return ""
+}
+
+// Quote writes b as a MySQL string literal: backslash escapes for \ ' NUL newline CR Ctrl-Z.
+func Quote(b []byte) string {
+	out := []byte{'\''}
+	for _, c := range b {
+		switch c {
+		case '\\':
+			out = append(out, '\\', '\\')
+		case '\'':
+			out = append(out, '\\', '\'')
+		case 0:
+			out = append(out, '\\', '0')
+		case '\n':
+			out = append(out, '\\', 'n')
+		case '\r':
+			out = append(out, '\\', 'r')
+		case 0x1a:
+			out = append(out, '\\', 'Z')
+		default:
+			out = append(out, c)
+		}
+	}
+	return string(append(out, '\''))
+}
+
+// LongParam is an integer parameter of type MYSQL_TYPE_LONG.
+func LongParam(n int) sess.MyParam {
+	u := uint32(int32(n))
+	return sess.MyParam{Type: sess.MyTypeLong, Value: []byte{byte(u), byte(u >> 8), byte(u >> 16), byte(u >> 24)}}
+}
+
+// StrParam is a string parameter of type MYSQL_TYPE_VAR_STRING.
+func StrParam(s string) sess.MyParam {
+	return sess.MyParam{Type: sess.MyTypeVarString, Value: []byte(s)}
+}
+
+// panicSite names the first frames of Acra code in the recorded panic stack.
+func panicSite(s *sess.MySession) string {
+	if len(s.PanicStacks) == 0 {
+		return "?"
+	}
+	var frames []string
+	for _, l := range strings.Split(s.PanicStacks[0], "\n") {
+		l = strings.TrimSpace(l)
+		if strings.Contains(l, "/repo/") || (strings.Contains(l, "cossacklabs/acra") && strings.Contains(l, ".go:")) {
+			if i := strings.LastIndex(l, " +0x"); i > 0 {
+				l = l[:i]
+			}
+			frames = append(frames, l)
+			if len(frames) == 3 {
+				break
+			}
+		}
+	}
+	return strings.Join(frames, " <- ")
 }
